@@ -28,6 +28,9 @@ def main():
     try:
         r = subprocess.run(["git", "-C", wt, "apply", os.path.join(d, "patch.diff")], capture_output=True, text=True)
         if r.returncode != 0:
+            # later fix: commits may have moved the context of an older seeded change: retry with reduced context
+            r = subprocess.run(["git", "-C", wt, "apply", "-C1", os.path.join(d, "patch.diff")], capture_output=True, text=True)
+        if r.returncode != 0:
             print("patch does not apply:", r.stderr); return 2
         changed = subprocess.run(["git", "-C", wt, "status", "--porcelain"], capture_output=True, text=True).stdout.splitlines()
         repl = {}
